@@ -51,6 +51,9 @@ def gen_world(rng, n):
         r = rng.random()
         a["tag"] = ABSENT if r < 0.3 else (NONE if r < 0.45 else rand_str(rng))
         a["name"] = NONE if rng.random() < 0.25 else rand_str(rng)
+        # a custom attribute that happens to be called like the pseudo-attribute parent_id (left behind by an
+        # import, say) with a value that is NOT the parent's id: filters on parent_id mean the real parent
+        a["stale"] = iv(rng.randint(0, 2 * n)) if rng.random() < 0.3 else ABSENT
         attrs.append(a)
     pre = [[] for _ in tasks]
     for _ in range(rng.choice([0, 1, 2, 3, 4])):
@@ -71,6 +74,8 @@ def build(W):
         kw = {"prio": py(a["prio"])}
         if a["tag"]["k"] != "absent":
             kw["tag"] = py(a["tag"])
+        if a.get("stale", ABSENT)["k"] != "absent":
+            kw["parent_id"] = py(a["stale"])
         objs.append(pj.Task(W["ids"][i], name=py(a["name"]), **kw))
     w = pj.WBS()
 
@@ -112,7 +117,7 @@ def project(w, objs):
             "pre": [[g(p) for p in o.predecessors] for o in objs],
             "suc": [[g(p) for p in o.successors] for o in objs],
             "attrs": [{"prio": value_of(o, "prio"), "tag": value_of(o, "tag"), "name": value_of(o, "name"),
-                       "zz": value_of(o, "zz")} for o in objs]}
+                       "zz": value_of(o, "zz"), "stale": value_of(o, "parent_id")} for o in objs]}
 
 
 def the_list(w, objs, l):
